@@ -90,6 +90,9 @@ def _seed(cls, little, needed=0, stripped=False):
     hashoff = img.blob(w(1) + w(3) + w(2) + w(0) + w(0) + w(1), align=8)
     gnuoff = img.blob(w(1) + w(1) + w(1) + w(0) + [0xff] * (cls // 8) + w(1) + w(0x1234 & ~1) + w(0x5678 | 1), align=8)
     note = w(4) + w(4) + w(3) + [0x47, 0x4e, 0x55, 0] + [1, 2, 3, 4] + w(0) + w(0) + w(7)
+    # a GNU property note (words 8..): one x86 feature property, padded to the class alignment
+    prop = w(0xc0000002) + w(4) + w(3) + ([0] * 4 if cls == 64 else [])
+    note += w(4) + w(len(prop)) + w(5) + [0x47, 0x4e, 0x55, 0] + prop
     noteoff = img.blob(note, align=4)
     # version records (requirement with one auxiliary, definition with one auxiliary, one version index per dynamic symbol)
     verneed = L.encode('VERNEED', cls, little, dict(vn_version=1, vn_cnt=1, vn_file=1, vn_aux=16, vn_next=0)) + L.encode('VERNAUX', cls, little, dict(vna_hash=0x0d696914, vna_other=2, vna_name=11))
@@ -324,14 +327,14 @@ FIELDS = [('EHDR', 0, f) for f in ('e_shoff', 'e_phoff', 'e_shnum', 'e_phnum', '
          [('PHDR', i, f) for i in (0, 1, 2) for f in ('p_offset', 'p_filesz', 'p_type', 'p_vaddr')] + \
          [('DYN', i, f) for i in (1, 3, 5, 7) for f in ('d_tag', 'd_val')] + \
          [('SYM', 1, 'st_name'), ('SYM', 2, 'st_shndx')] + \
-         [('WORD', i, 'hash') for i in (0, 1, 2)] + [('WORD', i, 'gnu') for i in (0, 1, 2, 3)] + [('WORD', i, 'note') for i in (0, 1, 5, 6)] + \
+         [('WORD', i, 'hash') for i in (0, 1, 2)] + [('WORD', i, 'gnu') for i in (0, 1, 2, 3)] + [('WORD', i, 'note') for i in (0, 1, 5, 6, 9, 12, 13)] + \
          [('SHDR', i, f) for i in (9, 10, 11) for f in ('sh_offset', 'sh_size', 'sh_link', 'sh_info', 'sh_entsize')] + \
          [('WORD', i, 'verneed') for i in (0, 2, 3, 7)] + [('WORD', i, 'verdef') for i in (1, 3, 4, 6)]
 
 
 OFFSET_FIELDS = ('e_shoff', 'e_phoff', 'sh_offset', 'p_offset', 'd_val', 'sh_name', 'st_name')
 QUICK_FIELDS = [f for f in FIELDS if f[2] in ('e_shoff', 'e_phoff', 'e_shnum', 'e_phnum', 'e_shentsize', 'e_phentsize', 'e_shstrndx', 'sh_size', 'sh_entsize', 'sh_link', 'sh_offset',
-                                             'p_offset', 'p_filesz', 'd_tag', 'd_val', 'hash', 'gnu', 'note', 'sh_info', 'verneed', 'verdef') and not (f[0] == 'SHDR' and f[1] in (5,) and f[2] == 'sh_link')]
+                                             'p_offset', 'p_filesz', 'd_tag', 'd_val', 'hash', 'gnu', 'note', 'sh_info', 'verneed', 'verdef') and not (f[0] == 'SHDR' and f[1] in (5,) and f[2] == 'sh_link') and f != ('WORD', 9, 'note')]      # (the size of the property note: ~1200 paths, thorough tier only)
 
 
 BIG = 384        # dynamic entries of the long-table seeds
@@ -369,7 +372,7 @@ def _battery_instances(tier):
     return out
 
 
-TIER_PARAMS = {'quick': {'conc_cap': 400, 'max_decisions': 20000, 'deadline_s': 900}, 'thorough': {'conc_cap': 800, 'max_decisions': 60000, 'deadline_s': 5400}}
+TIER_PARAMS = {'quick': {'conc_cap': 400, 'max_decisions': 200000, 'deadline_s': 900}, 'thorough': {'conc_cap': 800, 'max_decisions': 400000, 'deadline_s': 5400}}      # (decisions: above what the read budget of 16 x size + 2048 reads can cause, so that an endless read loop ends in the read budget - a violation - not in the engine limit)
 
 HARNESSES = [
     H('h19_2_battery', h_battery, _battery_instances, decoy=-1, expect=('terminated', 'ctor-ELFError'),
